@@ -1281,10 +1281,13 @@ fn snn_cases(ctx: &mut Ctx) {
                 let res = ctx.case(line.clone(), true, &format!("talking-source-{}", class));
                 let (tr, outcome) = res.split_once(" => ").unwrap_or(("", "?"));
                 let trace: Vec<&str> = tr.split(' ').filter(|x| !x.is_empty()).collect();
-                // bounded retries whatever the source does: every run of the source's calls happens once per attempt
-                let reqs = trace.iter().filter(|m| **m == format!("RO.{}.RPX", own)).count();
-                let bound = 3 * (1 + 3 * same_snd);
-                ctx.monitor(reqs <= bound, "C11-invariants", &line, &format!("{} pixel transfers were requested of sign {}; at most {} are due", reqs, own, bound));
+                // bounded retries whatever the source does.  Only where the source's own calls request no pixel transfer of
+                // this sign are the requests in the trace all the outer call's (how often the source is run per attempt is
+                // nobody's promise, so nested transfers are not counted against a bound)
+                if same_snd == 0 {
+                    let reqs = trace.iter().filter(|m| **m == format!("RO.{}.RPX", own)).count();
+                    ctx.monitor(reqs <= 3, "C11-invariants", &line, &format!("{} pixel transfers were requested of sign {} in one call; at most 3 attempts are allowed", reqs, own));
+                }
                 // complete and ordered: a successful call has sent, in order, every chunk of every page and then their count
                 if outcome.starts_with("DONE") {
                     let mut want: Vec<String> = vec![];
